@@ -203,7 +203,7 @@ struct Obs { text: String, outcome: Outcome, log: Vec<Node>, verdict: Option<Ver
 fn observe(c: &Case) -> Obs {
     pest::set_call_limit(c.lim.and_then(NonZeroUsize::new));
     pest::set_error_detail(c.det);
-    let cx = LCtx::new(&c.env, 20000);
+    let cx = LCtx::new(&c.env, 3000);
     let st = catch(|| pest::state::<R, _>(&c.input, |s| run_log(&c.prog, s, &cx)));
     let log = { let f = cx.frames.borrow(); if f.len() == 1 { f[0].clone() } else { vec![] } };
     let mut obs = Obs { text: String::new(), outcome: Outcome::Panic, log: vec![], verdict: None };
